@@ -442,7 +442,9 @@ def dedupe_key_check(rep, loops, noff, rule, fnf):
     ACCUMULATORS.clear()
     for l in loops:
         start = loops[l].get('iter_start')
-        for kind, trace, st in (loops[l]['iter_states'] or []):
+        # (a search written as `while (cur && !same_key(cur)) cur = next;` leaves through its condition knowing the key)
+        via_cond = [('break', (), s_) for s_ in (loops[l].get('exit_snaps') or [])]
+        for kind, trace, st in list(loops[l]['iter_states'] or []) + via_cond:
             changed = []
             if kind not in ('break', 'return'):
                 # a scan without early exit: an iteration that changes an accumulator local (sets a flag, counts a match)
